@@ -22,8 +22,9 @@
 //! ORACLE: any panic / abort / watchdog timeout / allocation failure, or a lookup / enumeration
 //! returning more phrases than the file holds, or `Trie::new` ACCEPTING an index that is not a tree laid
 //! out parent-before-child / has a zero syllable inside a child range (the former findings F16 / F17,
-//! repaired by `validate_index`) -> `!oracle C12 new …` (no known classes are left on the trie side
-//! except F39, the empty-key entry of a valid file).
+//! repaired by `validate_index`) / has a node whose syllable field is not a syllable code (C13's F47: `entries()`
+//! would panic at `Syllable::try_from(..).unwrap()`) -> `!oracle C12 new …` (no known classes are left on the
+//! trie side except F39, the empty-key entry of a valid file).
 #[path = "../c12_common.rs"]
 mod common;
 use chewing::dictionary::{Dictionary, DictionaryBuilder, DictionaryInfo, LookupStrategy, Phrase, Trie, TrieBuilder};
@@ -90,7 +91,7 @@ fn family(rng: &mut Rng, thorough: bool) -> Vec<(String, Vec<u8>)> {
     ));
     let n = if thorough { 4 } else { 1 };
     for i in 0..n {
-        let pool = [CE4, SHI4, 0x2208, 0x0208, 0x2200, 513, 65535];
+        let pool = [CE4, SHI4, 0x2208, 0x0208, 0x2200, 513, 0x2bed];
         let mut es: Vec<(Vec<u16>, String, u32, Option<u64>)> = vec![];
         for _ in 0..(3 + rng.below(5)) {
             let len = rng.below(4) as usize + if rng.chance(1, 8) { 0 } else { 1 };
@@ -110,10 +111,14 @@ struct Case {
     bytes: Vec<u8>,
     /// (index bytes, phrase bytes) when the file was assembled from them by `trie_doc`
     parts: Option<(Vec<u8>, Vec<u8>)>,
+    /// the corruption is known to put a non-zero value that is not a syllable code into the syllable field of a
+    /// record other than the root (`validate_index` must reject the file: "invalid syllable")
+    bad_syl: bool,
 }
 
 fn doc_case(what: String, idx: &[u8], data: &[u8]) -> Case {
-    Case { what, bytes: trie_doc(idx, data), parts: Some((idx.to_vec(), data.to_vec())) }
+    let bad_syl = invalid_syllable_node(&parse_index(idx));
+    Case { what, bytes: trie_doc(idx, data), parts: Some((idx.to_vec(), data.to_vec())), bad_syl }
 }
 
 /// offset and length of the index OCTET STRING contents in a file built by `TrieBuilder`
@@ -214,12 +219,48 @@ fn witnesses() -> Vec<Case> {
     idx.extend(rec8(5, 0, SHI4)); // 3 unused node with an empty range
     idx.extend(rec8(0, d1.len() as u16, 0)); // 4 leaf
     v.push(doc_case("clause-gaps-accepted".into(), &idx, &d1));
+    // C13's F47 in a dictionary file: flawless trees but for the syllable field of one node — a value `Syllable::try_from`
+    // rejects since the repair; `validate_index` must refuse the file (otherwise `entries()` panics at its `unwrap()`):
+    // as the only node, as first / second child next to valid siblings, below a valid node
+    for (k, &code) in INVALID_CODES.iter().enumerate() {
+        let mut idx = vec![];
+        idx.extend(rec8(1, 1, 0)); // 0 root -> [1,2)
+        idx.extend(rec8(2, 1, code)); // 1 -> [2,3)
+        idx.extend(rec8(0, d1.len() as u16, 0)); // 2 leaf
+        v.push(doc_case(format!("witness-F47-invalid-syllable-{:#06x}", code), &idx, &d1));
+        let mut idx = vec![];
+        idx.extend(rec8(1, 2, 0)); // 0 root -> [1,3)
+        idx.extend(rec8(3, 1, if k % 2 == 0 { code } else { CE4 })); // 1 -> [3,4)
+        idx.extend(rec8(4, 2, if k % 2 == 0 { SHI4 } else { code })); // 2 -> [4,6)
+        idx.extend(rec8(0, d1.len() as u16, 0)); // 3 leaf
+        idx.extend(rec8(0, d1.len() as u16, 0)); // 4 leaf
+        idx.extend(rec8(6, 1, if k % 3 == 0 { code } else { CE4 })); // 5 -> [6,7)
+        idx.extend(rec8(0, d1.len() as u16, 0)); // 6 leaf
+        v.push(doc_case(format!("witness-F47-invalid-syllable-sibling-{:#06x}", code), &idx, &d1));
+    }
+    // accepted: the boundary codes (largest code, the empty pattern, a lone tone), and ANY value in the root's
+    // syllable field (the root is never converted to a `Syllable`)
+    for code in [0x2bedu16, 0x8000, 5, 1, 0x2a00] {
+        let mut idx = vec![];
+        idx.extend(rec8(1, 1, 0));
+        idx.extend(rec8(2, 1, code));
+        idx.extend(rec8(0, d1.len() as u16, 0));
+        v.push(doc_case(format!("clause-edge-syllable-accepted-{:#06x}", code), &idx, &d1));
+    }
+    for code in [0xffffu16, 0x6a07, 0x8208] {
+        let mut idx = vec![];
+        idx.extend(rec8(1, 1, code));
+        idx.extend(rec8(2, 1, CE4));
+        idx.extend(rec8(0, d1.len() as u16, 0));
+        v.push(doc_case(format!("clause-root-syllable-field-unchecked-{:#06x}", code), &idx, &d1));
+    }
     // F39 (dictionary-file form): a *valid* file, written by `TrieBuilder`, with an entry under the
     // empty key; the traversals are fine, every conversion of a context over it aborts
     v.push(Case {
         what: "witness-F39-empty-key-entry".into(),
         bytes: build(&[(&[], "空", 1, None), (&[CE4], "測", 1, None), (&[SHI4], "試", 3, None)], false),
         parts: None,
+        bad_syl: false,
     });
     // F40 (repaired by a `fix:` commit: `saturating_add` in `estimate`): a valid file storing a frequency next to
     // u32::MAX; the context is created and committing the phrase (learning) must clamp to MAX_USER_FREQ.  Before
@@ -229,6 +270,7 @@ fn witnesses() -> Vec<Case> {
         what: "witness-F40-max-frequency".into(),
         bytes: build(&[(&[CE4], "測", u32::MAX, None), (&[SHI4], "試", 3, None)], false),
         parts: None,
+        bad_syl: false,
     });
     v
 }
@@ -238,7 +280,7 @@ fn cases(seed: u64, thorough: bool) -> Vec<Case> {
     let mut v = witnesses();
     let fam = family(&mut rng, thorough);
     for (name, f) in &fam {
-        v.push(Case { what: format!("{}-valid", name), bytes: f.clone(), parts: None });
+        v.push(Case { what: format!("{}-valid", name), bytes: f.clone(), parts: None, bad_syl: false });
         let (ipos, ilen) = index_span(f);
         for pos in 0..f.len() {
             let in_index = pos >= ipos && pos < ipos + ilen;
@@ -248,6 +290,11 @@ fn cases(seed: u64, thorough: bool) -> Vec<Case> {
             } else {
                 vec![0, o ^ 1, o ^ 0x80, 0xff]
             };
+            if in_index && (pos - ipos) % 8 >= 6 {
+                // syllable field: values that leave the code space in one byte (high byte: initial 22 / 53, marker bit;
+                // low byte: tone 6 / 7, rime 14 / 15)
+                vals.extend(if (pos - ipos) % 8 == 6 { [0x2c, 0x6a, 0x80, 0x82] } else { [0x06, 0x07, 0x70, 0x7e] });
+            }
             if in_index && thorough {
                 vals.extend([3, 4, 5, 6, 7, 8, 0x7f, 0x80]);
             }
@@ -257,12 +304,18 @@ fn cases(seed: u64, thorough: bool) -> Vec<Case> {
                 if x != o {
                     let mut g = f.clone();
                     g[pos] = x;
-                    v.push(Case { what: format!("{}-overwrite@{}={}{}", name, pos, x, if in_index { "-index" } else { "" }), bytes: g, parts: None });
+                    // a byte of the syllable field of a record other than the root, giving a non-zero non-code
+                    let bad_syl = in_index && (pos - ipos) >= 8 && (pos - ipos) % 8 >= 6 && {
+                        let r0 = ipos + (pos - ipos) / 8 * 8;
+                        let code = u16::from_be_bytes([g[r0 + 6], g[r0 + 7]]);
+                        code != 0 && !is_syllable_code(code)
+                    };
+                    v.push(Case { what: format!("{}-overwrite@{}={}{}", name, pos, x, if in_index { "-index" } else { "" }), bytes: g, parts: None, bad_syl });
                 }
             }
         }
         for cut in 0..f.len() {
-            v.push(Case { what: format!("{}-truncated@{}", name, cut), bytes: f[..cut].to_vec(), parts: None });
+            v.push(Case { what: format!("{}-truncated@{}", name, cut), bytes: f[..cut].to_vec(), parts: None, bad_syl: false });
         }
         for _ in 0..(if thorough { 60 } else { 12 }) {
             let mut g = f.clone();
@@ -270,13 +323,13 @@ fn cases(seed: u64, thorough: bool) -> Vec<Case> {
             for _ in 0..extra {
                 g.push(rng.below(256) as u8);
             }
-            v.push(Case { what: format!("{}-extended+{}", name, extra), bytes: g, parts: None });
+            v.push(Case { what: format!("{}-extended+{}", name, extra), bytes: g, parts: None, bad_syl: false });
         }
         // structured: rewrite one index record field with an interesting value
         let (idx, data) = trie_parts(&Trie::new(&f[..]).unwrap()).unwrap();
         let nrec = idx.len() / 8;
         for r in 0..nrec {
-            for (field, vals) in [(0usize, vec![0u32, 1, r as u32, r as u32 + 1, nrec as u32 - 1, nrec as u32, 0xffff_ffff]), (1, vec![0, 1, 2, nrec as u32, 0xffff]), (2, vec![0, 1, CE4 as u32, SHI4 as u32])] {
+            for (field, vals) in [(0usize, vec![0u32, 1, r as u32, r as u32 + 1, nrec as u32 - 1, nrec as u32, 0xffff_ffff]), (1, vec![0, 1, 2, nrec as u32, 0xffff]), (2, vec![0, 1, CE4 as u32, SHI4 as u32, 0x6a07, 0x8208, 0x020e, 0xffff, 0x2bee, 0x2c00, 0x8000, 0x2bed])] {
                 for val in vals {
                     let mut i2 = idx.clone();
                     match field {
@@ -308,7 +361,7 @@ fn cases(seed: u64, thorough: bool) -> Vec<Case> {
                 let leafish = r > 0 && rng.chance(1, 3);
                 let a = if leafish { rng.below(data.len() as u64 + 2) as u32 } else if rng.chance(3, 4) { (r as u64 + 1 + rng.below(3)) as u32 } else { rng.below(n as u64 + 2) as u32 };
                 let b = if leafish { rng.below(data.len() as u64 + 2) as u16 } else { rng.below(4) as u16 };
-                let s = if r == 0 || leafish { 0 } else { *rng.pick(&[CE4, SHI4, CE4, 0]) };
+                let s = if r == 0 || leafish { 0 } else if rng.chance(1, 10) { *rng.pick(INVALID_CODES) } else { *rng.pick(&[CE4, SHI4, CE4, 0]) };
                 i2.extend(rec8(a, b, s));
             }
             v.push(doc_case(format!("{}-random-index", name), &i2, &data));
@@ -325,7 +378,7 @@ fn cases(seed: u64, thorough: bool) -> Vec<Case> {
             h.append(&mut b);
             b = h;
         }
-        v.push(Case { what: "arbitrary-bytes".into(), bytes: b, parts: None });
+        v.push(Case { what: "arbitrary-bytes".into(), bytes: b, parts: None, bad_syl: false });
     }
     v
 }
@@ -347,7 +400,8 @@ fn queries(recs: &[IRec]) -> Vec<(Vec<u16>, char, Option<usize>)> {
     ];
     let mut seen: Vec<u16> = vec![];
     for r in recs {
-        if r.s != 0 && r.s != CE4 && r.s != SHI4 && !seen.contains(&r.s) && seen.len() < 2 {
+        // (the root's syllable field is not checked by `validate_index`: it may hold any value)
+        if r.s != 0 && r.s != CE4 && r.s != SHI4 && Syllable::try_from(r.s).is_ok() && !seen.contains(&r.s) && seen.len() < 2 {
             seen.push(r.s);
         }
     }
@@ -393,7 +447,22 @@ fn worker(seed: u64, thorough: bool, lo: usize, hi: usize, start_case: usize, st
             Ok(Err(_)) => {
                 if first_op == 0 {
                     say(format!("walk open b{} => err", hex(&c.bytes)));
-                    say(format!("#open {} err", ci));
+                    // rejected by the syllable check ALONE? (the same index with every invalid node syllable replaced
+                    // by a valid one is accepted)
+                    let mut syl_only = false;
+                    if let Some((idx, data)) = &c.parts {
+                        let recs = parse_index(idx);
+                        if invalid_syllable_node(&recs) {
+                            let mut i2 = idx.clone();
+                            for (i, r) in recs.iter().enumerate() {
+                                if i != 0 && r.s != 0 && !is_syllable_code(r.s) {
+                                    i2[i * 8 + 6..i * 8 + 8].copy_from_slice(&CE4.to_be_bytes());
+                                }
+                            }
+                            syl_only = matches!(catch_unwind(AssertUnwindSafe(|| Trie::new(&trie_doc(&i2, data)[..]).is_ok())), Ok(true));
+                        }
+                    }
+                    say(format!("#open {} err bad_syl={} syl_only={}", ci, c.bad_syl as u8, syl_only as u8));
                 }
                 continue;
             }
@@ -413,11 +482,16 @@ fn worker(seed: u64, thorough: bool, lo: usize, hi: usize, start_case: usize, st
         let (tab, total_phrases) = leaf_table(&recs, &data);
         if first_op == 0 {
             say(format!("walk open b{} => ok b{} {}", hex(&c.bytes), hex(&idx), data.len()));
-            say(format!("#open {} ok records={} non_tree={} zero_child={}", ci, recs.len(), non_tree_index(&recs) as u8, zero_syllable_child(&recs) as u8));
+            say(format!("#open {} ok records={} non_tree={} zero_child={} invalid_syl={}", ci, recs.len(), non_tree_index(&recs) as u8,
+                zero_syllable_child(&recs) as u8, invalid_syllable_node(&recs) as u8));
             // the former findings F16 / F17: `validate_index` has to reject such an index
             if non_tree_index(&recs) || zero_syllable_child(&recs) {
                 say(format!("!oracle C12 new Trie::new-accepts-an-index-that-is-not-a-breadth-first-tree non_tree={} zero_child={} {} file=b{}",
                     non_tree_index(&recs) as u8, zero_syllable_child(&recs) as u8, c.what, hex(&c.bytes)));
+            }
+            // C13's F47 on the file side: a node syllable that is not a syllable code must not get past `Trie::new`
+            if invalid_syllable_node(&recs) || c.bad_syl {
+                say(format!("!oracle C12 new Trie::new-accepts-an-index-with-a-node-syllable-that-is-not-a-syllable {} file=b{}", c.what, hex(&c.bytes)));
             }
         }
         let pre = format!("b{} {} {}", hex(&idx), data.len(), tab);
@@ -643,6 +717,9 @@ fn main() {
         })
         .collect();
     let mut st = std::collections::BTreeMap::<String, u64>::new();
+    for k in ["opened_non_tree", "opened_zero_child", "opened_invalid_node_syllable"] {
+        st.insert(k.into(), 0);
+    }
     for h in handles {
         for l in h.join().unwrap() {
             if let Some(rest) = l.strip_prefix("#open ") {
@@ -656,6 +733,15 @@ fn main() {
                     }
                     if kv == "zero_child=1" {
                         *st.entry("opened_zero_child".into()).or_default() += 1;
+                    }
+                    if kv == "invalid_syl=1" {
+                        *st.entry("opened_invalid_node_syllable".into()).or_default() += 1;
+                    }
+                    if kv == "bad_syl=1" {
+                        *st.entry("rejected_with_invalid_node_syllable_by_construction".into()).or_default() += 1;
+                    }
+                    if kv == "syl_only=1" {
+                        *st.entry("rejected_by_the_syllable_check_alone".into()).or_default() += 1;
                     }
                 }
             } else if let Some(rest) = l.strip_prefix("!oracle ") {
@@ -671,6 +757,7 @@ fn main() {
         }
     }
     out.stat("cases", cs.len());
+    out.stat("cases_invalid_node_syllable_by_construction", cs.iter().filter(|c| c.bad_syl).count());
     for (k, v) in &st {
         out.stat(k, v);
     }
